@@ -50,7 +50,18 @@ static void family(const Text &d, const std::vector<size_t> &closers, Bufs &b, v
         }
     }
     // trailing non-whitespace
-    static const char32_t suffixes[] = {'x', '0', ',', ']', '}', '[', '{', '"', ':', 'n', 0x0, 0xE9};
+    // every 7-bit unit that is not one of the four JSON whitespace characters, plus look-alikes of whitespace
+    static std::vector<char32_t> suffixes;
+    if (suffixes.empty()) {
+        for (char32_t u = 0; u < 0x80; u++) {
+            if (u != ' ' && u != '\t' && u != '\n' && u != '\r') {
+                suffixes.push_back(u);
+            }
+        }
+        for (char32_t u : {0x80, 0x85, 0xA0, 0xE9, 0x2028, 0x3000, 0xFEFF}) {
+            suffixes.push_back(u);
+        }
+    }
     for (char32_t s : suffixes) {
         Text t = d;
         t.push_back(s);
@@ -89,7 +100,7 @@ int main(int argc, char **argv) {
         const bool th    = a.thorough();
         plan.rule = "for every generated RFC 8259 container document D (<=" + std::to_string(nodes) +
                     " nodes, scalar pools, no trailing whitespace): all proper prefixes (code points and UTF-8 code units), D followed by "
-                    "each of 12 non-whitespace units (with and without a space), every closing bracket swapped or removed - all must "
+                    "each of the 124 non-whitespace 7-bit units and 7 whitespace look-alikes (with and without a space), every closing bracket swapped or removed - all must "
                     "yield Undefined; plus every string of <=" + std::to_string(nu) + " units over the C05 alphabet: an accepted text "
                     "must contain no Undefined node and re-parse from its own Stringify to the same tree; distinct = documents + "
                     "distinct accepted trees";
